@@ -318,3 +318,21 @@ Proof.
   destruct (deliver_real (deliver s k d1) k d2 _ B8) as (_ & _ & _ & _ & _ & _ & _ & C8 & _).
   rewrite C8, B1. reflexivity.
 Qed.
+
+(* ---------------- a second reporter on the same registry ---------------- *)
+(* A reporter whose own cache does not have the id, first-using a name the
+   registry already knows (from another reporter, or pre-registered): the
+   registration is rejected - AlreadyRegistered when help and label names are
+   the same, inconsistent otherwise - whatever bucket bounds either side has;
+   the existing vector is NOT adopted: the error goes to the callback
+   (callback_gets_error) and the caller gets the no-op metric. *)
+Theorem known_name_rejected c s u n ks i : ttype_ok c ->
+  own_cache_miss c s u (n, ks) -> find_name n (vecs s) = Some i ->
+  exists e, alloc_vec c s u n ks = (s, VErr e) /\ (eclass e = 1 \/ eclass e = 2).
+Proof.
+  intros T M F.
+  assert (R : exists e, register (vecs s) (uvec c u n ks) = Some e /\ (eclass e = 1 \/ eclass e = 2)).
+  { unfold register. rewrite uvec_name, F.
+    destruct (dim_eqb (nth i (vecs s) dvec) (uvec c u n ks)); eexists; split; try reflexivity; cbn; auto. }
+  destruct R as (e & R & Cl). exists e. split; [now apply alloc_rejected | exact Cl].
+Qed.
